@@ -203,7 +203,7 @@ std::string cst_str(const z_lin_cst_t &c) {
   return std::string("(") + k + " " + l + ")";
 }
 
-std::string dump(Dom &d, bool with_csts) {
+template <class DomT> std::string dump(DomT &d, bool with_csts) {
   std::ostringstream o;
   bool b = d.is_bottom();
   o << (b ? 1 : 0) << " " << (d.is_top() ? 1 : 0) << " (iv";
@@ -239,30 +239,17 @@ crab::domains::bitwise_operation_t bop(const std::string &s) {
   return OP_ASHR;
 }
 
-std::string eval(const Sx &q) {
-  variable_factory_t vf;
-  VF = &vf;
-  std::vector<z_var> vars;
-  for (unsigned i = 0; i < NV; i++) vars.push_back(z_var(vf["v" + std::to_string(i)], crab::INT_TYPE, 32));
-  VARS = &vars;
-  std::vector<Dom> pool;
-  for (unsigned i = 0; i < NP; i++) pool.push_back(mk_top());
-  const Sx &ops = q[2];
-  std::ostringstream out;
-  for (size_t oi = 1; oi < ops.size(); oi++) {
-    const Sx &op = ops[oi];
-    const std::string &k = op[0].a;
-    unsigned d = std::stoul(op[1].a);
-    // dumps of the other slots before (value semantics, C16)
-    std::vector<std::string> before(NP);
-    for (unsigned i = 0; i < NP; i++)
-      if (i != d) before[i] = dump(pool[i], true);
+// one operation of the history applied to a pool of values of type DomT (the shipped domain, or
+// for the copy-on-write wrapper runs also the plain wrapped domain driven in lock step)
+template <class DomT> void apply_op(std::vector<DomT> &pool, const Sx &op, size_t oi) {
+  const std::string &k = op[0].a;
+  unsigned d = std::stoul(op[1].a);
     if (k == "top") pool[d].set_to_top();
     else if (k == "bot") pool[d].set_to_bottom();
     else if (k == "copy") {
-      Dom c(pool[std::stoul(op[2].a)]);
+      DomT c(pool[std::stoul(op[2].a)]);
       if (oi % 2) pool[d] = c;                                  // copy ctor + copy assignment
-      else { Dom m(std::move(c)); pool[d] = std::move(m); }     // + move ctor + move assignment
+      else { DomT m(std::move(c)); pool[d] = std::move(m); }     // + move ctor + move assignment
     }
     else if (k == "assign") pool[d].assign(var(vidx(op[2])), parse_lin(op[3]));
     else if (k == "arith") {
@@ -286,20 +273,53 @@ std::string eval(const Sx &q) {
       for (size_t i = 0; i < op[3].size(); i++) t.push_back(var(vidx(op[3][i])));
       pool[d].rename(f, t);
     } else if (k == "expand") pool[d].expand(var(vidx(op[2])), var(vidx(op[3])));
-    else if (k == "join") { Dom r = pool[std::stoul(op[2].a)] | pool[std::stoul(op[3].a)]; pool[d] = r; }
-    else if (k == "meet") { Dom r = pool[std::stoul(op[2].a)] & pool[std::stoul(op[3].a)]; pool[d] = r; }
-    else if (k == "widen") { Dom r = pool[std::stoul(op[2].a)] || pool[std::stoul(op[3].a)]; pool[d] = r; }
-    else if (k == "narrow") { Dom r = pool[std::stoul(op[2].a)] && pool[std::stoul(op[3].a)]; pool[d] = r; }
+    else if (k == "join") { DomT r = pool[std::stoul(op[2].a)] | pool[std::stoul(op[3].a)]; pool[d] = r; }
+    else if (k == "meet") { DomT r = pool[std::stoul(op[2].a)] & pool[std::stoul(op[3].a)]; pool[d] = r; }
+    else if (k == "widen") { DomT r = pool[std::stoul(op[2].a)] || pool[std::stoul(op[3].a)]; pool[d] = r; }
+    else if (k == "narrow") { DomT r = pool[std::stoul(op[2].a)] && pool[std::stoul(op[3].a)]; pool[d] = r; }
     else if (k == "joineq") pool[d] |= pool[std::stoul(op[2].a)];
     else if (k == "meeteq") pool[d] &= pool[std::stoul(op[2].a)];
     else if (k == "normalize") pool[d].normalize();
     else if (k == "minimize") pool[d].minimize();
     else if (k == "select") pool[d].select(var(vidx(op[2])), parse_cst(op[3]), parse_lin(op[4]), parse_lin(op[5]));
     else if (k == "query") { (void)pool[d][var(0)]; }
+}
+
+std::string eval(const Sx &q) {
+  variable_factory_t vf;
+  VF = &vf;
+  std::vector<z_var> vars;
+  for (unsigned i = 0; i < NV; i++) vars.push_back(z_var(vf["v" + std::to_string(i)], crab::INT_TYPE, 32));
+  VARS = &vars;
+  std::vector<Dom> pool;
+  for (unsigned i = 0; i < NP; i++) pool.push_back(mk_top());
+#ifdef WRAPPED
+  std::vector<WRAPPED> plain;
+  for (unsigned i = 0; i < NP; i++) { WRAPPED w; plain.push_back(w.make_top()); }
+#endif
+  const Sx &ops = q[2];
+  std::ostringstream out;
+  for (size_t oi = 1; oi < ops.size(); oi++) {
+    const Sx &op = ops[oi];
+    const std::string &k = op[0].a;
+    unsigned d = std::stoul(op[1].a);
+    // dumps of the other slots before (value semantics, C16)
+    std::vector<std::string> before(NP);
+    for (unsigned i = 0; i < NP; i++)
+      if (i != d) before[i] = dump(pool[i], true);
+    apply_op(pool, op, oi);
+#ifdef WRAPPED
+    // representation independence (C16): the wrapper and the plain domain driven by the same
+    // history must give identical dumps
+    apply_op(plain, op, oi);
+    bool wr_same = dump(pool[d], true) == dump(plain[d], true);
+#else
+    bool wr_same = true;
+#endif
     bool same = true;
     for (unsigned i = 0; i < NP; i++)
       if (i != d && before[i] != dump(pool[i], true)) same = false;
-    out << "(s " << d << " " << dump(pool[d], true) << " (oth " << (same ? 1 : 0) << ")) ";
+    out << "(s " << d << " " << dump(pool[d], true) << " (oth " << ((same && wr_same) ? 1 : 0) << ")) ";
   }
   out << "(leq";
   for (unsigned i = 0; i < NP; i++)
